@@ -269,3 +269,35 @@ func VerifC03_MixedUnknownModes() {
 	vAssert("remaining-exact", eqStrs(remaining, want))
 	vReach("parsed")
 }
+
+// The help option on the command line does not excuse anything: whenever Parse
+// succeeds the unknown token is in remaining (in Fail mode it must not succeed
+// silently without it).
+func VerifC03_WithHelpOption() {
+	mode := vInt("mode", 0, 2)
+	um := vInt("um", 0, 2)
+	where := vInt("where", 0, 2)
+	p := positional("p", "c", "sub", "help")
+	opt, _, _ := rawDefinition(mode, um, false)
+	opt.HelpCommand("help", opt.Alias("?"))
+	var args, want []string
+	switch where {
+	case 0:
+		args, want = []string{"--help", "--typo", p}, []string{"--typo", p}
+	case 1:
+		args, want = []string{"--typo=1", p, "--help"}, []string{"--typo=1", p}
+	case 2:
+		args, want = []string{"c", "--help", "--typo", p}, []string{"--typo", p}
+	}
+	vPhase("run")
+	remaining, err := opt.Parse(args)
+	vObserve("err", err != nil)
+	vObserve("remaining", remaining)
+	if err != nil {
+		vAssert("failed-parse-nil-remaining", remaining == nil)
+		vReach("failed")
+		return
+	}
+	vAssert("remaining-exact", eqStrs(remaining, want))
+	vReach("parsed")
+}
